@@ -124,6 +124,30 @@ def agrees(nat, ref):
 
 
 def one_program(ctx, B, h, wa, name, path):
+    """never raises: a failure of any harness op / build / run on one program is a result for that program"""
+    try:
+        return one_program_(ctx, B, h, wa, name, path)
+    except Exception as e:          # noqa: every failure is recorded, none may end the check
+        import traceback
+        return {"name": name, "path": path, "verdict": "check-error", "why": "%s: %s | %s" % (type(e).__name__, e, traceback.format_exc()[-400:])}
+
+
+def rejected(res, B, d, stage, why):
+    """the native toolchain failed on this program at `stage`; if the same WAT runs on the reference runtime that is a violation"""
+    res["why"] = why
+    wat = os.path.join(d, "c02_linux.wat")
+    if os.path.exists(wat):
+        ref = B.run_wazero(wat)
+        if not ref["st"].startswith(("error:", "timeout")):
+            res["verdict"] = "build-rejected"
+            res["stage"] = stage
+            res["ref_status"] = ref["st"][:60]
+            return res
+    res["verdict"] = "rejected:" + stage
+    return res
+
+
+def one_program_(ctx, B, h, wa, name, path):
     """returns dict: name, verdict (ok | rejected:<why> | ref-failed:<why> | differs), details"""
     d = os.path.join(ctx.tmp, "p", hashlib.sha1(name.encode()).hexdigest()[:10])
     os.makedirs(d, exist_ok=True)
@@ -132,31 +156,27 @@ def one_program(ctx, B, h, wa, name, path):
     shutil.copy(path, src)
     res = {"name": name, "path": path}
     # the WAT (and complete assembly text) the native build is made from
-    r = subprocess.run([h, "walinux", src, os.path.join(d, "prog.wat"), os.path.join(d, "prog.h.s")], capture_output=True, text=True, timeout=900)
+    r = subprocess.run([h, "walinux", src, os.path.join(d, "c02_linux.wat"), os.path.join(d, "c02_linux.s")], capture_output=True, text=True, timeout=900)
     if r.returncode == 3:
         res["verdict"] = "rejected:front-end"          # does not compile for the linux target: no native build exists
         res["why"] = r.stderr[-200:]
         return res
     if r.returncode != 0:
-        res["verdict"] = "rejected:wat2x64"
-        res["why"] = re.sub(r"\s+", " ", r.stderr)[-200:]
-        return res
+        return rejected(res, B, d, "wat2x64", re.sub(r"\s+", " ", r.stderr)[-200:])
     res["links_native_code"] = "clang=0" not in r.stdout
     # the real CLI for .wa sources
     exe = os.path.join(d, "prog.exe")
-    asm = os.path.join(d, "prog.h.s")
+    asm = os.path.join(d, "c02_linux.s")
     use_cli = ext == ".wa" and not os.environ.get("C02_FORCE_HARNESS")      # (debug aid: build everything through the harness path)
     if use_cli:
         try:
             r = subprocess.run([wa, "native", "build", "-o", exe, src], capture_output=True, text=True, timeout=900, cwd=d)
         except subprocess.TimeoutExpired:
-            res["verdict"] = "rejected:native-build-timeout"
-            return res
+            return rejected(res, B, d, "native-build-timeout", "wa native build did not finish")
         if r.returncode != 0 or not os.path.exists(exe):
-            msg = sorted(set(re.findall(r"Error: (.*)", r.stdout + r.stderr)))
-            res["verdict"] = "rejected:gcc" if msg else "rejected:native-build"
-            res["why"] = ("; ".join(msg) or (r.stdout + r.stderr))[-300:]
-            return res
+            msg = sorted(set(re.findall(r"Error: (.*)|(undefined reference to .*)", r.stdout + r.stderr)))
+            msg = ["".join(m) for m in msg]
+            return rejected(res, B, d, "gcc" if msg else "native-build", ("; ".join(msg) or (r.stdout + r.stderr))[-300:])
         # the harness path must be the CLI path: identical assembly text
         try:
             a, b = open(exe + ".s").read(), open(asm).read()
@@ -170,10 +190,8 @@ def one_program(ctx, B, h, wa, name, path):
         r = subprocess.run(["gcc", asm, "-o", exe] + GCC_ARGS, capture_output=True, text=True, timeout=900)
         if r.returncode != 0:
             msg = sorted(set(re.findall(r"Error: (.*)", r.stderr)))
-            res["verdict"] = "rejected:gcc"
-            res["why"] = "; ".join(msg)[-300:]
-            return res
-    ref = B.run_wazero(os.path.join(d, "prog.wat"))
+            return rejected(res, B, d, "gcc", "; ".join(msg)[-300:])
+    ref = B.run_wazero(os.path.join(d, "c02_linux.wat"))
     if ref["st"].startswith(("error:", "timeout")):
         res["verdict"] = "ref-failed"
         res["why"] = ref["st"][:200]
@@ -183,7 +201,10 @@ def one_program(ctx, B, h, wa, name, path):
     res["lines"] = ref["out"].count("\n")
     if use_cli:
         try:
-            w = subprocess.run([wa, "run", src], capture_output=True, timeout=900, cwd=d)
+            rd = os.path.join(d, "wasmrun")
+            os.makedirs(rd, exist_ok=True)
+            shutil.copy(path, os.path.join(rd, "prog.wa"))
+            w = subprocess.run([wa, "run", os.path.join(rd, "prog.wa")], capture_output=True, timeout=900, cwd=rd)
             # (on a trap `wa run` prints the runtime's error text to stdout: only clean exits are comparable)
             res["wasm_target_same"] = (w.stdout.decode("latin1") == ref["out"]) if (w.returncode == 0 and ref["st"] == "ok") else None
             if res["wasm_target_same"] is False:
@@ -237,14 +258,14 @@ def one_program(ctx, B, h, wa, name, path):
         # every textual repair is in: try the reference mutations
         found = False
         if natr is not None:
-            wat = open(os.path.join(d, "prog.wat")).read()
+            wat = open(os.path.join(d, "c02_linux.wat")).read()
             for mn, mf in MUTATIONS:
                 w2, n = mf(wat)
                 if not n:
                     continue
-                with open(os.path.join(d, "prog.mut.wat"), "w") as f:
+                with open(os.path.join(d, "c02_linux.mut.wat"), "w") as f:
                     f.write(w2)
-                ref2 = B.run_wazero(os.path.join(d, "prog.mut.wat"))
+                ref2 = B.run_wazero(os.path.join(d, "c02_linux.mut.wat"))
                 if agrees(natr, ref2):
                     target, extra, found = ref2, ["ins:" + mn], True
                     break
@@ -291,6 +312,15 @@ def run_programs(ctx, B, h, wa, dist, samples, nontrivial):
             nontrivial.add(("program", name.split(":")[0], r.get("lines", 0) // 5))
         for f in (features or []):
             feats[f] = feats.get(f, 0) + 1
+        if v == "check-error":
+            ctx.proof["broken"].append({"theorem": "program pipeline %s" % name, "why": "a step of the comparison failed unexpectedly: %s" % r.get("why", "")[:600]})
+            continue
+        if v == "build-rejected":
+            cls = re.sub(r"[^a-z]+", "-", re.sub(r"`[^']*'|\.Wa\.\S+|[0-9A-Fa-f]{6,}|\d+", "", r["why"].lower()))[:60].strip("-")
+            dist["program_failures"] += 1
+            ctx.violation("native-build:%s:%s" % (r["stage"], cls), "%s: the program runs on WebAssembly (%s) but the native build fails at %s: %s" % (
+                name, r["ref_status"], r["stage"], r["why"][:200]), {"program": name, "stage": r["stage"], "message": r["why"], "source": open(path).read()})
+            continue
         if v.startswith("rejected") or v == "ref-failed":
             rejected.setdefault(v + " " + re.sub(r"[0-9A-Fa-f]{6,}|\d+", "N", r.get("why", ""))[:120], []).append(name)
             continue
